@@ -25,7 +25,7 @@ func init() {
 				Rule: "case = (constructor, operation history over Add/Push/Pop/PopLast/Clear); three generators: " +
 					"(a) scripted rotate-then-grow scenarios for every capacity 1..24 x every head position x {Add,Push} (seed-independent), and for every capacity 25..1400 (9000 thorough) x three head positions, continued to the next regrow, with constant-time observations on every step and the full comparison after every regrow, " +
 					"and at 262143..1.2 M elements (5 M thorough), one per block; (b) exhaustive enumeration of all histories up to a length bound over {Add,Push,Pop,PopLast} for preallocated sizes 0..4, " +
-					"(c) PRNG histories of 20..300 ops with phase-switching op mixes, (d) long-lived queues: one instance carries 300 000 (1.2 M thorough) operations with its length wandering between 0 and a few hundred. After EVERY op: Len, IsEmpty, Front, Slice, Each (with early stop), Peek(n) for all n in [-Len-2, Len+1] and for offsets far out of range whose low 8..62 bits look like a valid offset. " +
+					"(c) PRNG histories of 20..300 ops with phase-switching op mixes, (d) long-lived queues: one instance carries 300 000 (1.2 M thorough) operations with its length wandering between 0 and a few hundred. After EVERY op: Each with read-only calls (Slice, Peek, Front, Len, Each) made from inside its loop body - before the monitor reads anything else -, Len, IsEmpty, Front, Slice (and scribbling over the returned slice), Each (with early stop), Peek(n) for all n in [-Len-2, Len+1] and for offsets far out of range whose low 8..62 bits look like a valid offset. " +
 					"distinct = distinct (constructor, history) hashes; non-trivial = the history contained at least one wrap of the ring indices or a regrow while head > 0 (seen through the VerifState hook)",
 				Required:     []string{"rotate_then_grow_add", "rotate_then_grow_push", "backward_wrap_push", "forward_wrap_add", "pop_to_empty", "steps", "large_capacity_scenarios", "element_type_checks", "sparse_observation_histories", "concurrent_instance_histories", "long_lived_queue_runs", "very_large_queues"},
 				Exhaustive:   true,
@@ -113,6 +113,39 @@ func c07runMode(c *fw.Ctx, ctorSize int, ops []c07op, light, sparse bool) (nontr
 			}
 			return true
 		}
+		if len(ref) > 0 && len(ref) <= 48 {
+			// read-only calls from inside the loop body of Each. This comes first,
+			// before the monitor itself has called Slice or anything else on the
+			// new state (an accessor that tidies up internally would otherwise
+			// have done so already)
+			var nested []int
+			inner := true
+			q.Each(func(v int) bool {
+				nested = append(nested, v)
+				i := len(nested) - 1
+				if i >= len(ref) {
+					return false
+				}
+				if sl := q.Slice(); !equalInts(sl, ref) {
+					inner = false
+				}
+				if pv, ok := q.Peek(i); !ok || pv != ref[i] || q.Front() != ref[0] || q.Len() != len(ref) {
+					inner = false
+				}
+				if i == len(ref)/2 {
+					n := 0
+					q.Each(func(int) bool { n++; return n <= len(ref) })
+					if n != len(ref) {
+						inner = false
+					}
+				}
+				return true
+			})
+			if !equalInts(nested, ref) || !inner {
+				fail("Each with read-only calls (Slice, Peek, Front, Len, Each) in its loop body yields %v (the calls inside agreed with the reference: %v), want %v", nested, inner, ref)
+				return false
+			}
+		}
 		if got := q.Len(); got != len(ref) {
 			fail("Len=%d want %d", got, len(ref))
 			return false
@@ -138,6 +171,13 @@ func c07runMode(c *fw.Ctx, ctorSize int, ops []c07op, light, sparse bool) (nontr
 			fail("Slice of empty queue is non-nil %v", sl)
 			return false
 		}
+		// the caller owns what Slice returned: scribbling over it (and appending
+		// to it) must not reach the queue, which the checks below still read
+		for i := range sl {
+			sl[i] = -999
+		}
+		sl = append(sl, -998, -997)
+		_ = sl
 		if len(ref) > 0 && len(ref)%3 == 1 {
 			// a scan abandoned half-way: the loop body panics, the caller recovers
 			fw.Panics(func() {
